@@ -137,4 +137,131 @@ fn c02_o4_eval_float64__excluding_known() {
     std::mem::forget(out);
 }
 
+// ---------------------------------------------------------------- O5 the BinaryExpr arm of fold_expr
+// The arm's text (fold both children, fold a literal pair, simplify AND/OR with a boolean
+// literal, rebuild) is compiled against Copy carriers for Expr / ScalarValue / Box, with the
+// recursive `self.fold_expr` calls and `self.eval_binary` as CONTRACT ORACLES:
+//   fold_expr(e)        : returns any expression with the same three-valued value as e
+//   eval_binary(l,op,r) : Some(v) ==> v is the value of `l op r` (proved for the real
+//                         functions by c02_o4_*); it may also decline (None)
+// Obligation = the inductive step: for every 3VL valuation of the opaque leaves,
+// eval3(fold(l op r)) == eval3(l) op3 eval3(r).
+pub mod fold_c {
+    use crate::planner::BinaryOp;
+    pub const T: u8 = 1;
+    pub const F: u8 = 0;
+    pub const N: u8 = 2;
+    #[derive(Clone, Copy, PartialEq, Debug)]
+    pub enum ScalarValue {
+        Null,
+        Boolean(bool),
+        Int64(i64),
+    }
+    #[derive(Clone, Copy)]
+    pub struct KBox(pub &'static Expr);
+    impl std::ops::Deref for KBox {
+        type Target = Expr;
+        fn deref(&self) -> &Expr {
+            self.0
+        }
+    }
+    pub struct Box;
+    impl Box {
+        #[allow(clippy::new_ret_no_self)]
+        pub fn new(e: Expr) -> KBox {
+            KBox(std::boxed::Box::leak(std::boxed::Box::new(e)))
+        }
+    }
+    #[derive(Clone, Copy)]
+    pub enum Expr {
+        /// an opaque sub-expression (column, comparison, ...) with an arbitrary 3VL value
+        Leaf(u8),
+        Literal(ScalarValue),
+        BinaryExpr { left: KBox, op: BinaryOp, right: KBox },
+    }
+    pub static mut LEAF_TV: [u8; 2] = [0; 2];
+    pub fn and3(a: u8, b: u8) -> u8 {
+        if a == F || b == F { F } else if a == T && b == T { T } else { N }
+    }
+    pub fn or3(a: u8, b: u8) -> u8 {
+        if a == T || b == T { T } else if a == F && b == F { F } else { N }
+    }
+    /// SQL three-valued value of a (carrier) expression
+    pub fn eval3(e: &Expr) -> u8 {
+        match e {
+            Expr::Leaf(i) => {
+                let v = unsafe { LEAF_TV[*i as usize] };
+                kani::assume(v <= 2);
+                v
+            }
+            Expr::Literal(ScalarValue::Boolean(b)) => *b as u8,
+            Expr::Literal(ScalarValue::Null) => N,
+            Expr::Literal(_) => panic!("VERIF oracle: non-boolean literal (unsupported)"),
+            Expr::BinaryExpr { left, op, right } => match op {
+                BinaryOp::And => and3(eval3(left), eval3(right)),
+                BinaryOp::Or => or3(eval3(left), eval3(right)),
+                _ => panic!("VERIF oracle: operator outside the harness (unsupported)"),
+            },
+        }
+    }
+    pub struct KFold;
+    impl KFold {
+        /// oracle for the recursive calls: any expression with the same value
+        pub fn fold_expr(&self, e: &Expr) -> Expr {
+            let v = eval3(e);
+            let k: u8 = kani::any();
+            match k % 2 {
+                0 => *e,
+                _ => {
+                    if v == N {
+                        Expr::Literal(ScalarValue::Null)
+                    } else {
+                        Expr::Literal(ScalarValue::Boolean(v == T))
+                    }
+                }
+            }
+        }
+        /// oracle for eval_binary: folds a pair of boolean literals correctly, or declines
+        pub fn eval_binary(&self, l: &ScalarValue, op: BinaryOp, r: &ScalarValue) -> Option<ScalarValue> {
+            match (l, r, op) {
+                (ScalarValue::Boolean(a), ScalarValue::Boolean(b), BinaryOp::And) if kani::any() => Some(ScalarValue::Boolean(*a && *b)),
+                (ScalarValue::Boolean(a), ScalarValue::Boolean(b), BinaryOp::Or) if kani::any() => Some(ScalarValue::Boolean(*a || *b)),
+                _ => None,
+            }
+        }
+    }
+    include!("/verif/kani/gen/kx_c02_fold_binary.rs");
+
+    fn any_operand() -> Expr {
+        let k: u8 = kani::any();
+        kani::assume(k < 4);
+        match k {
+            0 => Expr::Leaf(0),
+            1 => Expr::Leaf(1),
+            2 => Expr::Literal(ScalarValue::Boolean(kani::any())),
+            _ => Expr::Literal(ScalarValue::Null),
+        }
+    }
+    /// the simplification table of AND / OR is Kleene-correct for every operand shape
+    /// (opaque sub-expression with any truth value incl. NULL, TRUE / FALSE literal, NULL literal)
+    #[kani::proof]
+    #[kani::unwind(4)]
+    fn c02_o5_fold_binary_step() {
+        unsafe {
+            LEAF_TV = [kani::any(), kani::any()];
+        }
+        let l = any_operand();
+        let r = any_operand();
+        let is_and: bool = kani::any();
+        let op = if is_and { BinaryOp::And } else { BinaryOp::Or };
+        let (lb, rb) = (Box::new(l), Box::new(r));
+        let out = KFold.kx_c02_fold_binary(&lb, &op, &rb);
+        let want = if is_and { and3(eval3(&l), eval3(&r)) } else { or3(eval3(&l), eval3(&r)) };
+        assert!(eval3(&out) == want);
+        kani::cover!(matches!(out, Expr::Literal(_)));
+        kani::cover!(matches!(out, Expr::Leaf(_)));
+        kani::cover!(matches!(out, Expr::BinaryExpr { .. }));
+    }
+}
+
 include!("/verif/kani/gen/playback_optimizer_rules_constant_folding.rs");
